@@ -173,6 +173,25 @@ func solveAll(jobs []job, dir string, secs, par int) {
 			q := j.e.buildQuery(j.o, true)
 			j.o.QueryBytes = len(q)
 			var r solveResult
+			if cs := j.e.caseSplits(); len(cs) > 0 && !j.o.Cover {
+				// explicit case split on a parameter (option cases): every case must be unsat
+				r = solveResult{result: "unsat", backend: fmt.Sprintf("cases(%d)", len(cs))}
+				for ci, c := range cs {
+					qc := strings.Replace(q, "(check-sat)", c+"\n(check-sat)", 1)
+					rc := solveStaged(qc, dir, fmt.Sprintf("%04d_%s.case%d", idx, j.o.Name, ci), secs)
+					r.secs += rc.secs
+					if rc.result != "unsat" {
+						r.result, r.output, r.backend = rc.result, rc.output, rc.backend
+						break
+					}
+				}
+				j.o.Result, j.o.Backend, j.o.Secs, j.o.Output = r.result, r.backend, r.secs, r.output
+				if r.result == "sat" {
+					j.o.Model = parseModel(r.output, j.o.modelTerms)
+				}
+				j.o.QueryFile = filepath.Join(dir, sanitizeFile(fmt.Sprintf("%04d_%s.case0", idx, j.o.Name))+".smt2")
+				return
+			}
 			if !j.o.Cover {
 				// stage 1: drop quantified hypotheses (weaker assumptions: unsat still proves the goal)
 				if qs, changed := stripQuantified(q); changed {
@@ -351,4 +370,62 @@ func stripBackground(q string) (string, bool) {
 		out = append(out, l)
 	}
 	return strings.Join(out, "\n"), changed
+}
+
+// solveStaged: quantifier-free relaxation, then without background axioms, then the full query.
+func solveStaged(q, dir, name string, secs int) solveResult {
+	if qs, changed := stripQuantified(q); changed {
+		s1 := 3
+		if secs < s1 {
+			s1 = secs
+		}
+		if r := solve(qs, dir, name+".qf", s1, ""); r.result == "unsat" {
+			r.backend += "(qf)"
+			return r
+		}
+	}
+	if qs, changed := stripBackground(q); changed {
+		s1 := 5
+		if secs < s1 {
+			s1 = secs
+		}
+		if r := solve(qs, dir, name+".nobg", s1, ""); r.result == "unsat" {
+			r.backend += "(nobg)"
+			return r
+		}
+	}
+	return solve(q, dir, name, secs, "")
+}
+
+// caseSplits returns the extra assertions of `option cases <param>: v1,v2,...`.
+func (e *Enc) caseSplits() []string {
+	if e.rootSpec == nil {
+		return nil
+	}
+	v, ok := e.rootSpec.Options["cases"]
+	if !ok {
+		return nil
+	}
+	parts := strings.SplitN(v, ":", 2)
+	if len(parts) != 2 {
+		return nil
+	}
+	name := strings.TrimSpace(parts[0])
+	var term string
+	for _, p := range e.rootParams {
+		if p.Name == name {
+			term = p.Term
+		}
+	}
+	if term == "" {
+		return nil
+	}
+	var out []string
+	for _, x := range strings.Split(parts[1], ",") {
+		x = strings.TrimSpace(x)
+		if x != "" {
+			out = append(out, fmt.Sprintf("(assert (= %s %s))", term, x))
+		}
+	}
+	return out
 }
